@@ -59,7 +59,11 @@ var c13Consumers = []struct {
 	name string
 	f    func(s string) (*apd.Decimal, error)
 }{
-	{"SetString", func(s string) (*apd.Decimal, error) { d := new(apd.Decimal); _, _, err := d.SetString(s); return d, err }},
+	{"SetString", func(s string) (*apd.Decimal, error) {
+		d := new(apd.Decimal)
+		_, _, err := d.SetString(s)
+		return d, err
+	}},
 	{"NewFromString", func(s string) (*apd.Decimal, error) { d, _, err := apd.NewFromString(s); return d, err }},
 	{"UnmarshalText", func(s string) (*apd.Decimal, error) { d := new(apd.Decimal); return d, d.UnmarshalText([]byte(s)) }},
 	{"Scan(string)", func(s string) (*apd.Decimal, error) { d := new(apd.Decimal); return d, d.Scan(s) }},
@@ -280,9 +284,9 @@ func mantissaPatterns() []uint64 {
 	add(2)
 	for i := uint(0); i < 52; i++ {
 		add(1 << i)
-		add(1<<(i+1) - 1)               // suffix run of ones
-		add((1<<52 - 1) &^ (1<<i - 1))  // prefix run of ones
-		add((1<<52 - 1) ^ (1 << i))     // all ones with one defect
+		add(1<<(i+1) - 1)              // suffix run of ones
+		add((1<<52 - 1) &^ (1<<i - 1)) // prefix run of ones
+		add((1<<52 - 1) ^ (1 << i))    // all ones with one defect
 	}
 	add(1<<52 - 1)
 	// 17-digit round-trip stress patterns (mantissas of 0.1, 1/3, pi, 5e-324-like tails, 9007199254740993-like)
